@@ -313,8 +313,11 @@ def run_case(case, ch: Choices) -> RunResult:
                                                             {"schema_has_deprecated_inputs": bool((world.get("shape") or {}).get("deprecated_inputs"))}))
                             d = []
                     if d:
+                        # (in a schema with @deprecated input fields/arguments the vanished field (D22) can take the types only it
+                        # referenced with it: the key lets the known finding cover that consequence, and only there)
                         res.violations.append(Violation(
-                            "introspection-changes-client", "single file vs introspection: %s" % "; ".join(d)[:1500], {}))
+                            "introspection-changes-client", "single file vs introspection: %s" % "; ".join(d)[:1500],
+                            {"schema_has_deprecated_inputs": bool((world.get("shape") or {}).get("deprecated_inputs"))}))
             else:
                 after = genrun.snapshot(root_c)
                 wrote = rc.get("writes_on_target", 0) > 0 or {k: v for k, v in after.items() if not os.path.basename(k).startswith("job-")} != \
